@@ -968,8 +968,7 @@ def run_compare(
                 for record in all_bed_records:
                     print(*record, sep="\t", file=switch_error_bedfile)
 
-            if len(vcfs) > 2:
-                assert ploidy == 2
+            if len(vcfs) > 2 and ploidy == 2:
                 print("MULTIWAY COMPARISON OF ALL PHASINGS:")
                 (
                     results,
